@@ -523,6 +523,12 @@ def run(ck, F):
                     why = f'value of {contracts.short(en)} (enumerators {min(vals) if vals else "-"}..{max(vals) if vals else "-"})'
                 elif _guarded(idx, base, N, guards, f):
                     ok, why = True, 'tested against the extent on the way'
+                elif i0.get('k') == 'binop' and i0.get('op') in ('%', '&') and 'unsigned' in (_strip(i0.get('l')).get('t') or '') + ' ' + (i0.get('t') or '') \
+                        and ('cv' in (i0.get('r') or {}) or 'cv' in _strip(i0.get('r'))):
+                    # an unsigned value reduced modulo K (or masked with K): below K (at most K)
+                    K_ = int((i0.get('r') or {}).get('cv', _strip(i0.get('r')).get('cv')))
+                    top = K_ - 1 if i0['op'] == '%' else K_
+                    ok, why = (K_ > 0 or i0['op'] == '&') and 0 <= top < N, f'an unsigned value {"modulo" if i0["op"] == "%" else "masked with"} {K_}'
                 else:
                     vs = _value_set(idx, f)
                     if vs is not None and vs:
